@@ -7,7 +7,22 @@ BASELINE_CMD = ("cd /repo && /venv/bin/python -m pytest -ra -q -p no:cacheprovid
                 "--continue-on-collection-errors")
 
 # property -> dict(category, text, note, technique, design_ref)   (only claimed properties)
-CLAIMS: dict = {}
+CLAIMS: dict = {
+    'C04': dict(
+        category='proof',
+        text='Per query function of wn/_queries.py (SQL text and bind map extracted by symbolic execution of the '
+             'real Python source, every argument shape = one path): scoping of every row the SELECT ranges over, '
+             'and 2-safety non-interference between two arbitrary databases that agree on the rows owned by the '
+             'scope; z3 discharges each obligation for all databases and all arguments (no bound). Refutations '
+             'are concretised into a real SQLite file and replayed on the real function.',
+        note='Trusted: SQLite semantics as encoded by vc/sqlvc (A-SQLITE), first row of an unordered single-table '
+             'SELECT = least rowid (A-ORDER-FIRST), the engine itself (A-ENGINE). Known finding K1 (forms/tags/'
+             'pronunciations of an unselected extension) is reported as KNOWN-FINDING; its obligations are '
+             're-proved under the formal restriction.',
+        technique='contract-based deductive verification: AST->VC symbolic execution of the real query functions + '
+                  'SQL->FOL translation, obligations discharged by z3',
+        engines=['pyvc', 'sqlvc']),
+}
 
 # property -> reason (every property that is not claimed)
 NOT_APPLICABLE: dict = {}
